@@ -179,7 +179,7 @@ def strict_problems(root, q, cc, enc, r, ref, parent):
     probs = []
     rk = ref.kind
     if r.kind.startswith("ESCAPE"):
-        probs.append(dict(clause="outside-escape" if rk in oracle.OUTSIDE else "escape", exc=r.kind, where=r.details.get("where"), expected=rk, detail=f"strict decoding raised {r.kind} in {r.details.get('where')}: {r.details.get('msg')}; reference {rk}"))
+        probs.append(dict(clause="outside-escape" if rk in oracle.OUTSIDE else "escape", exc=r.kind, where=r.details.get("where"), expected=rk, **({"requested": oracle.enc_context(r.events, root, enc)["requested"]} if r.details.get("where") in ("encrypted", "process_response") else {}), detail=f"strict decoding raised {r.kind} in {r.details.get('where')}: {r.details.get('msg')}; reference {rk}"))
         return probs
     if rk in oracle.OUTSIDE:
         return probs
